@@ -23,11 +23,14 @@
               objects (Iso/DecidersObjects.v objects_verdict on the APPENDED INPUT FIELD 8 = [descs1, descs2], the C07
                 descriptors of the two specifications under the labels of spec1 / spec2, or absent / []:
                 [idescribes1, rank1, closed1, idescribes2, rank2, closed2] - the hypotheses idescribes, rank certificate
-                and closed of C12_transport_inverse_objects / C12_constructed_bijection_objects decided - or [])]
+                and closed of C12_transport_inverse_objects / C12_constructed_bijection_objects decided - or []);
+              I refl1; I refl2 (Iso/DecidersRefl.v refl_hypsb of the two descriptors: the hypotheses of
+                C12_check_reflexive_nonempty decided; refl_hypsb s = true -> Isomorphism.check(s, s) is True, by
+                Iso/ReflNonEmpty.v refl_hypsb_sound)]
      status 0 ok, 8 out of fuel, otherwise the exception code
      result = L [I 0; tree] | L [I code] *)
 From Coq Require Import ZArith List Bool.
-From CSS Require Import Base.Sx Base.PyList Iso.Model Iso.Cert Iso.Deciders Iso.DecidersObjects.
+From CSS Require Import Base.Sx Base.PyList Iso.Model Iso.Cert Iso.Deciders Iso.DecidersObjects Iso.DecidersRefl.
 Import ListNotations.
 Open Scope Z_scope.
 
@@ -108,7 +111,8 @@ Definition run_c12 (inp : sx) : sx :=
       if Z.eqb mode 1 then
         L ([I 0; of_bool b] ++ run_maps s1 s2 ord fuel ts1 ts2 ++
            [of_bool (order_eqb (om s) ord); of_bool (order_same_setb (om s) ord);
-            of_bool (wf_specb s1); of_bool (wf_specb s2); objects_verdict (sx_nth inp 8) s1 s2])
+            of_bool (wf_specb s1); of_bool (wf_specb s2); objects_verdict (sx_nth inp 8) s1 s2;
+            of_bool (refl_hypsb s1); of_bool (refl_hypsb s2)])
       else L [I 0; of_bool b; I 0; L []; L []; I 0; I 0; of_bool (wf_specb s1); of_bool (wf_specb s2);
-              objects_verdict (sx_nth inp 8) s1 s2]
+              objects_verdict (sx_nth inp 8) s1 s2; of_bool (refl_hypsb s1); of_bool (refl_hypsb s2)]
   end.
